@@ -357,10 +357,11 @@ def generate(rng, tier):
     yield from gen_cm(rng, 300 if tier == "quick" else 3000)
     configs = [(k, a) for k in KINDS for a in (True, False)]
     # depth 0 + exhaustive depth 1
-    nb1 = {}
+    nb1, n0s = {}, {}
     for kind, auto in configs:
         base = _work(op_of(kind, auto, []))
         n0 = base[1]
+        n0s[(kind, auto)] = n0
         evs = _events(kind)
         ops = [op_of(kind, auto, [])] + [op_of(kind, auto, [(b, e)]) for b in range(n0 + 2) for e in evs]
         for case in _pooled(ops, 1):
@@ -388,7 +389,7 @@ def generate(rng, tier):
         kind, auto = rng.choice(configs)
         evs = _events(kind)
         d = rng.choice((2, 2, 3, 3, 4))
-        nmax = 70
+        nmax = n0s[(kind, auto)] + 6
         sched = sorted((rng.randrange(nmax), rng.choice(evs)) for _ in range(d))
         ops.append(op_of(kind, auto, sched))
     yield from _pooled(ops, "sampled2-4")
